@@ -9,9 +9,10 @@ POOL_QUICK = ('fcc', 'bcc', 'sc', 'hcp', 'square', 'honey', 'omega', 'dtria', 'd
 POOL_ALL = POOL_QUICK + ('kagome', 'l12', 'tet', 'rect')
 
 
-def get_calc(name, Nthermo, NGFmax=4, fresh=False):
+def get_calc(name, Nthermo, NGFmax=4, fresh=False, slot=None):
+    """slot: a second, independent calculator object for the same crystal (used for call histories that must not be interrupted)"""
     from onsager import OnsagerCalc
-    key = (name, Nthermo, NGFmax)
+    key = (name, Nthermo, NGFmax) if slot is None else (name, Nthermo, NGFmax, slot)
     if fresh or key not in _calcs:
         crys, chem, cutoff = gen.named(name)
         jn = crys.jumpnetwork(chem, cutoff)
